@@ -660,6 +660,8 @@ func (c *splitPairClient) PostCall(e *Engine, st *State, call *ast.CallExpr, cal
 				_ = gp
 				flows = true
 			}
+		} else if f != nil && e.P.errorSink(f) {
+			flows = true // handed to a function that merges its arguments into an accumulated error
 		}
 	case *ast.AssignStmt, *ast.ReturnStmt:
 		flows = true
@@ -968,4 +970,61 @@ func (c *errTokClient) LoopHead(e *Engine, st *State, _ ast.Stmt) *State {
 		return st.WithExt("errtok:reported", "").WithExt("errtok:pending", "")
 	}
 	return nil
+}
+
+// errorSink: a module function that merges (one of) its error parameters into an error it stores or returns:
+// its body calls joinErrors with an argument that mentions the parameter, and the result is assigned or returned.
+func (p *Program) errorSink(fn *types.Func) bool {
+	decl, _ := p.DeclOf(fn)
+	if decl == nil || decl.Body == nil || !smallBody(decl) {
+		return false
+	}
+	info := p.Info
+	params := map[types.Object]bool{}
+	for _, f := range decl.Type.Params.List {
+		for _, n := range f.Names {
+			o := info.Defs[n]
+			if o == nil {
+				continue
+			}
+			t := o.Type()
+			if sl, ok := t.Underlying().(*types.Slice); ok {
+				t = sl.Elem()
+			}
+			if isErrorType(t) {
+				params[o] = true
+			}
+		}
+	}
+	if len(params) == 0 {
+		return false
+	}
+	sink := false
+	ast.Inspect(decl.Body, func(n ast.Node) bool {
+		call, ok := n.(*ast.CallExpr)
+		if !ok {
+			return true
+		}
+		if f := Callee(info, call); f == nil || fnName(f) != "joinErrors" {
+			return true
+		}
+		mentions := false
+		for _, a := range call.Args {
+			ast.Inspect(a, func(m ast.Node) bool {
+				if id, ok := m.(*ast.Ident); ok && params[objOf(info, id)] {
+					mentions = true
+				}
+				return true
+			})
+		}
+		if !mentions {
+			return true
+		}
+		switch p.Parent(call).(type) {
+		case *ast.AssignStmt, *ast.ReturnStmt:
+			sink = true
+		}
+		return true
+	})
+	return sink
 }
